@@ -75,6 +75,13 @@ def hier_case(draw):
         c['rho'] = 1.0 / len(c['gc']['nodes'])
     else:
         c.pop('rho_default', None)
+    if draw(st.integers(0, 3)) == 0:
+        # self-loops: the five models see the graph only through its degree sequence (a loop adds 2), so they must still coincide
+        loops = [u for u in c['gc']['nodes'] if draw(st.integers(0, 2)) == 0]
+        c['gc']['edges'] = c['gc']['edges'] + [[u, u] for u in loops]
+        if loops:
+            c['gc']['selfloops'] = True
+            c['tmax'] = c['tmin'] + (c['tmax'] - c['tmin']) / 2.0
     return c
 
 
@@ -89,7 +96,8 @@ def prop_hier(case):
         R = outs['EBCM_from_graph'][3]
         attack = (R[-1] + outs['EBCM_from_graph'][2][-1]) / ic.N
         nt = 0.05 <= attack <= 0.95 and len(ic.Ks) >= 2
-    return Result(fails, nontrivial=nt, classes=(['>=2-degrees'] if len(ic.Ks) >= 2 else ['regular']) + (['rho-default'] if case.get('rho_default') else []))
+    return Result(fails, nontrivial=nt, classes=(['>=2-degrees'] if len(ic.Ks) >= 2 else ['regular']) + (['rho-default'] if case.get('rho_default') else []) +
+                  (['self-loops'] if case['gc'].get('selfloops') else []))
 
 
 def uncorrelated_Pnk(ic):
